@@ -80,8 +80,67 @@ pub fn run(args: &Args, tier: &str, seed: u64) -> Report {
             }
         }
     }
+    // ---- one client object re-used: whatever an earlier exchange returned (an HTTP error status such as 426 Upgrade Required,
+    // a redirect, an IPP error), the next send of the same client contacts the same URL again
+    if only.is_none() {
+        for kind in [Kind::Blocking, Kind::Async] {
+            for first_status in [426u16, 301, 308, 401, 403, 500, 503, 200] {
+                n += 1;
+                let id = format!("w{n}");
+                let target = format!("/case/{id}/ipp/print?x=1");
+                let uri = format!("ipp://127.0.0.1:{}{target}", srv.port);
+                let resp = response.clone();
+                let calls = Arc::new(std::sync::atomic::AtomicUsize::new(0));
+                let c2 = calls.clone();
+                srv.on(
+                    &id,
+                    Arc::new(move |_r: &Req| {
+                        let k = c2.fetch_add(1, std::sync::atomic::Ordering::SeqCst);
+                        let mut p = Plan::ok(resp.clone());
+                        if k == 0 {
+                            p.status = first_status;
+                        }
+                        p
+                    }),
+                );
+                let mk = |i: u32| {
+                    let mut attrs = std::collections::BTreeMap::new();
+                    attrs.insert("attributes-charset".to_string(), MVal::Text { tag: 0x47, s: "utf-8".into() });
+                    attrs.insert("attributes-natural-language".to_string(), MVal::Text { tag: 0x48, s: "en".into() });
+                    mirror::to_ipp(&Model { version: 0x0101, code: 0x000b, id: i, groups: vec![MGroup { tag: 1, attrs }], data: vec![] })
+                };
+                let ccfg = ClientCfg { timeout_ms: Some(30_000), ..ClientCfg::default() };
+                let (r1, r2) = match kind {
+                    Kind::Blocking => {
+                        let c = blocking_client(&uri, &ccfg);
+                        (send_blocking(&c, mk(1)), send_blocking(&c, mk(2)))
+                    }
+                    Kind::Async => {
+                        let c = async_client(&uri, &ccfg);
+                        (send_async(&rt, &c, mk(1)), send_async(&rt, &c, mk(2)))
+                    }
+                };
+                let requests = srv.requests_for(&id);
+                srv.off(&id);
+                rep.eval();
+                rep.count("client_reuse_sequences", 1);
+                let cell = format!("{kind:?}/reuse-after-{first_status}");
+                rep.nontrivial(vkit::rng::hash64(cell.as_bytes()));
+                let replay = vec!["c14".to_string()];
+                let want_host = format!("127.0.0.1:{}", srv.port);
+                let ok = requests.len() == 2 && requests.iter().all(|r| r.target == target && r.header_all("host") == vec![want_host.as_str()]) && r2.is_ok();
+                if !ok {
+                    rep.violation(
+                        "C14:wire:client-reuse",
+                        format!("{kind:?} client re-used for a second send after the first was answered HTTP {first_status}: the peer on the target's port saw {} request(s) {:?}; first send {}, second send {}", requests.len(), requests.iter().map(|r| format!("{} Host={:?}", r.target, r.header_all("host"))).collect::<Vec<_>>(), r1.short(), r2.short()),
+                        replay,
+                    );
+                }
+            }
+        }
+    }
     srv.stop();
-    rep.rule = "Wire part of C14: {blocking, async} x {ipp, http} x host {127.0.0.1, localhost, LocalHost} x user-info {none, u@, User:pa%20ss@, a:b:c@} x path/query forms, every target with the loopback peer's explicit port. Monitor on the peer's request log: exactly one request arrives on that port, its request target equals the target's path and query, its single Host header equals host:port (host compared ASCII-case-insensitively).".into();
+    rep.rule = "Wire part of C14: {blocking, async} x {ipp, http} x host {127.0.0.1, localhost, LocalHost} x user-info {none, u@, User:pa%20ss@, a:b:c@} x path/query forms, every target with the loopback peer's explicit port. Monitor on the peer's request log: exactly one request arrives on that port, its request target equals the target's path and query, its single Host header equals host:port (host compared ASCII-case-insensitively); plus 16 client-reuse sequences: one client object whose first send was answered with an HTTP error / redirect status contacts the same URL on its second send.".into();
     if only.is_none() {
         rep.require(rep.evaluations >= 2 * 2 * 3 * 4 * 6, "all wire cells executed");
     }
